@@ -12,6 +12,13 @@ Theorem scan_lossless : forall s ts, balanced s -> scan s = Ok ts -> concat (map
 Proof. exact scan_lossless_lemma. Qed.
 Print Assumptions scan_lossless.
 
+(* on ANY input the scan is lossless up to one closing brace, appended exactly when the string
+   ends inside a special character that is never closed (Spec: ends_in_special) *)
+Theorem scan_lossless_all : forall s ts, scan s = Ok ts ->
+  concat (map fst ts) = s ++ (if ends_in_special s then [c_rbrace] else []).
+Proof. exact scan_lossless_all_lemma. Qed.
+Print Assumptions scan_lossless_all.
+
 (* the level of every token is the brace depth of the string right after that token
    (a running count that, on balanced input, never goes negative: it is a nat) *)
 Theorem scan_levels : forall s ts1 t l ts2, balanced s -> scan s = Ok (ts1 ++ (t, l) :: ts2) ->
@@ -158,6 +165,12 @@ Theorem change_case_upto_case : forall s mode out, balanced s -> change_case s m
   lower out = lower s.
 Proof. exact change_case_upto_case_lemma. Qed.
 Print Assumptions change_case_upto_case.
+
+(* ... and on any input, up to that one closing brace *)
+Theorem change_case_upto_case_all : forall s mode out, change_case s mode = Ok out ->
+  lower out = lower (s ++ (if ends_in_special s then [c_rbrace] else [])).
+Proof. exact change_case_upto_case_all_lemma. Qed.
+Print Assumptions change_case_upto_case_all.
 
 Theorem change_case_length : forall s mode out, balanced s -> change_case s mode = Ok out ->
   length out = length s.
